@@ -581,6 +581,40 @@ def force_bw_nfft(rng, sc):
     return sc
 
 
+def gen_parity_matrix(rng, est, n_even, n_odd, M=2, per_cell=1):
+    """the NFFT-vs-N parity matrix: real signals of an even and an odd length N, transform lengths
+    NFFT in {None, N, N+1, N+2, 2N, 2N+1}, sides cycling through default / onesided / twosided (mostly
+    one-sided, where the doubling of bins 1..Fl-1 and the Nyquist bin depend on the parity of NFFT), adaptive
+    alternating for the multitaper estimators"""
+    out = []
+    i = 0
+    for n in (n_even, n_odd):
+        for nf in (None, n, n + 1, n + 2, 2 * n, 2 * n + 1):
+            for _ in range(per_cell):
+                lead = [M] if (est.endswith("_csd") or M > 1) else []
+                sc = gen_scenario(rng, est, nmax=max(n, 17), max_ch=M, lead=lead, layout="C")
+                x = gen_signal(rng, lead, n, False)
+                set_data(sc, x)
+                sc["NFFT"] = nf
+                sc["sides"] = ["default", "onesided", "default", "twosided"][i % 4]
+                sc["use_sk"] = False
+                sc["normalize"] = True
+                if est.startswith("multi_taper"):
+                    sc.pop("BW", None)
+                    sc["NW"] = float(2.0 if n >= 8 else 1.0).hex()
+                    sc["low_bias"] = True
+                    sc["adaptive"] = bool((i // 2) % 2)
+                    sc["jackknife"] = False
+                else:
+                    for k in ("NW", "BW", "adaptive", "low_bias", "jackknife"):
+                        sc.pop(k, None)
+                sc["parity_cell"] = "N%s/NFFT%s" % ("even" if n % 2 == 0 else "odd",
+                                                   "none" if nf is None else ("even" if nf % 2 == 0 else "odd"))
+                out.append(sc)
+                i += 1
+    return out
+
+
 def gen_siblings(rng, est, nmax=24, max_ch=3, opt=None):
     """an option-sibling sequence: the same function on the same signal, called two times with exactly one
     option changed (either order), then the first call again (which must return the identical result).
@@ -662,7 +696,9 @@ def klass(sc):
         "nfft-none" if nf is None else ("nfft=n" if nf == n else ("nfft>n" if nf > n else "nfft<n")),
         sc.get("sides", "default"), "lead%d" % (len(sc["shape"]) - 1),
         ("/adaptive" if sc.get("adaptive") else "") + ("/" + sc["layout"] if sc.get("layout") else "")
-        + ("/sibling:" + sc["sibling"] if sc.get("sibling") else ""))
+        + ("/sibling:" + sc["sibling"] if sc.get("sibling") else "")
+        + ("/parity:" + sc["parity_cell"] if sc.get("parity_cell") else "")
+        + ("/via_get_spectra" if sc.get("via_get_spectra") else ""))
 
 
 def make_case(sc):
